@@ -239,7 +239,10 @@ func newClientOnce(cl *Cluster, o MgrOpts) (*Client, error) {
 		bo = 200
 	}
 	mopts := []gorums.ManagerOption{
-		gorums.WithGrpcDialOptions(dial...),
+		// two calls, as an application that collects its dial options in several places makes them
+		// (the manager's option list then has spare capacity)
+		gorums.WithGrpcDialOptions(dial[:2]...),
+		gorums.WithGrpcDialOptions(append(dial[2:], grpc.WithUserAgent("verif"))...),
 		gorums.WithDialTimeout(time.Duration(dt) * time.Millisecond),
 		gorums.WithBackoff(backoff.Config{BaseDelay: time.Duration(bo) * time.Millisecond, Multiplier: 1.0, Jitter: 0, MaxDelay: time.Duration(bo) * time.Millisecond}),
 		gorums.WithSendBufferSize(o.SendBuffer),
